@@ -109,6 +109,13 @@ def cmp_values(interp, a, b):
     a, b = interp.strip(a), interp.strip(b)
     if isinstance(a, Tok) or isinstance(b, Tok):
         if isinstance(a, Tok) and isinstance(b, Tok) and a.kind == b.kind and a.kind in ("V", "L", "T"):
+            if a.kind == "T" and a.dom != b.dom and {a.dom, b.dom} <= {"numtext", "ident-str"}:
+                # the decimal text of a number against the text of an alphanumeric identifier (which may start with a
+                # digit or a hyphen): both orders are realisable ("3" vs "2-x", "3" vs "alpha"), never equal
+                return -1 if interp.ctx.choose("text-order", 2) == 0 else 1
+            if a.kind == "T" and a.dom == b.dom == "numtext" and a.val != b.val:
+                # decimal texts of two different numbers: text order need not follow numeric order ("10" < "9")
+                return -1 if interp.ctx.choose("text-order", 2) == 0 else 1
             if a.dom != b.dom:
                 raise Inconclusive("comparison across domains %r %r" % (a, b), interp.where())
             interp.events.append(("cmp", a.name, b.name))
@@ -569,8 +576,18 @@ def m_to_string(interp, args, info):
     v = args[0]
     while isinstance(v, Ptr):
         v = interp.load(v)
-    if isinstance(v, (StrV, Tok)):
+    if isinstance(v, StrV) or (isinstance(v, Tok) and v.kind == "T"):
         return v
+    if isinstance(v, Tok) and v.kind == "I":
+        return Tok("T", "text(%s)" % v.name, str(v.val + v.off), dom="numtext", extra={"of": v})
+    if isinstance(v, Adt) and _adt_is_local(interp, v):
+        fm = Formatter()
+        display_value(interp, Ptr(Cell(fm), ()), v)
+        if all(k == "lit" for k, _ in fm.out):
+            return StrV("".join(x for _, x in fm.out))
+        if len(fm.out) == 1:
+            return m_to_string(interp, [fm.out[0][1]], info)
+        return Tok("T", "+".join(x if k == "lit" else x.name for k, x in fm.out), None, dom="composite-text")
     raise Inconclusive("to_string on %r" % (v,), interp.where())
 
 
@@ -1149,6 +1166,49 @@ def m_opt_take(interp, args, info):
     return v
 
 
+@model("std::option::Option::<T>::and")
+def m_opt_and(interp, args, info):
+    return args[1] if is_some(args[0]) else NONE
+
+
+@model("std::option::Option::<T>::xor")
+def m_opt_xor(interp, args, info):
+    a, b = is_some(args[0]), is_some(args[1])
+    if a and not b:
+        return args[0]
+    if b and not a:
+        return args[1]
+    return NONE
+
+
+@model("std::option::Option::<T>::zip")
+def m_opt_zip(interp, args, info):
+    if is_some(args[0]) and is_some(args[1]):
+        return some((args[0].fields[0], args[1].fields[0]))
+    return NONE
+
+
+@model("std::option::Option::<T>::is_none_or")
+def m_opt_is_none_or(interp, args, info):
+    return bool((not is_some(args[0])) or interp.call_value(args[1], [args[0].fields[0]]))
+
+
+@model("std::option::Option::<T>::as_mut")
+def m_opt_as_mut(interp, args, info):
+    c, path = interp.deref(args[0])
+    v = interp.read(c, path)
+    return some(Ptr(c, path + (0,))) if is_some(v) else NONE
+
+
+@model("std::option::Option::<T>::get_or_insert_with")
+def m_opt_get_or_insert_with(interp, args, info):
+    c, path = interp.deref(args[0])
+    v = interp.read(c, path)
+    if not is_some(v):
+        interp.write(c, path, some(interp.call_value(args[1], [])))
+    return Ptr(c, path + (0,))
+
+
 @model("std::option::Option::<T>::or")
 def m_opt_or(interp, args, info):
     return args[0] if is_some(args[0]) else args[1]
@@ -1454,3 +1514,38 @@ for _n, _f in (("is_ascii_alphanumeric", _alnum), ("is_ascii_digit", lambda b: 0
     for _pfx in ("core", "std"):
         MODELS[_pfx + "::char::methods::<impl char>::" + _n] = _char_pred("char::" + _n, _f)
         MODELS[_pfx + "::num::<impl u8>::" + _n] = _char_pred("u8::" + _n, lambda b, _f=_f: _f(b & 0xFF))
+
+
+# Unicode-aware predicates are NOT invariant on the abstract character classes (a class of non-ASCII characters may
+# contain members of either kind). They are evaluated on the representative, which is a real character, and the
+# evaluation is flagged: a `true` on a non-ASCII representative is a genuine witness; an all-`false` outcome proves
+# nothing and the caller must treat the class as undecided (see props/c05.char_class).
+def _unicode_pred(name, f):
+    def m(interp, args, info):
+        v = interp.strip(args[0])
+        if isinstance(v, Tok) and v.kind == "C":
+            v = v.val
+        if not isinstance(v, int):
+            raise Inconclusive("%s on %r" % (name, v), interp.where())
+        interp.events.append(("unicode-pred", name))
+        return f(chr(v))
+    return m
+
+
+for _n, _f in (("is_alphanumeric", lambda c: c.isalnum()), ("is_alphabetic", lambda c: c.isalpha()),
+               ("is_numeric", lambda c: c.isnumeric()), ("is_whitespace", lambda c: c.isspace()),
+               ("is_lowercase", lambda c: c.islower()), ("is_uppercase", lambda c: c.isupper())):
+    for _pfx in ("core", "std"):
+        MODELS[_pfx + "::char::methods::<impl char>::" + _n] = _unicode_pred("char::" + _n, _f)
+
+
+@model("std::cmp::Ord::clamp")
+def m_clamp(interp, args, info):
+    v, lo, hi = args
+    if cmp_values(interp, lo, hi) > 0:
+        raise Panic("clamp", interp.where(), "min > max")
+    if cmp_values(interp, v, lo) < 0:
+        return lo
+    if cmp_values(interp, v, hi) > 0:
+        return hi
+    return v
